@@ -1521,16 +1521,20 @@ def can_extend_leaf_to_make_quantifier_match_parent(
             ]
             assert mapping_paths
 
-            if all(
+            node_in_prefix_tree = maybe_prefix_tree.get_subtree(
+                path_to_node_in_prefix_tree
+            )
+
+            # (The leaf can only be freely instantiated if it corresponds to such a
+            # nonterminal element itself. If the match expression continues below it,
+            # as for `<rhs>` in `{<var> lhs} := <digit>`, only some of its expansions
+            # lead to a match.)
+            if not node_in_prefix_tree.children and all(
                 isinstance(reverse_var_map[mapping_path], language.DummyVariable)
                 and is_nonterminal(reverse_var_map[mapping_path].n_type)
                 for mapping_path in mapping_paths
             ):
                 continue
-
-            node_in_prefix_tree = maybe_prefix_tree.get_subtree(
-                path_to_node_in_prefix_tree
-            )
 
             if (
                 node.value == node_in_prefix_tree.value and node_in_prefix_tree.children
